@@ -84,7 +84,7 @@ func checkClosers(info *types.Info, body *ast.BlockStmt, acqFilter func(c *ast.C
 			}
 		}
 		// variables of an enclosing function (assigned from inside a callback) are not this body's to close
-		if v.Pos() < body.Pos() || v.Pos() > body.End() {
+		if !declaredWithin(info, body, v) {
 			return true
 		}
 		a.errVars = map[types.Object]bool{}
@@ -181,7 +181,7 @@ func checkClosers(info *types.Info, body *ast.BlockStmt, acqFilter func(c *ast.C
 				toLocalIdent := false
 				if i < len(s.Lhs) {
 					if id, ok := s.Lhs[i].(*ast.Ident); ok && keyOf(id) == "" {
-						if o := info.ObjectOf(id); o != nil && o.Pos() >= body.Pos() && o.Pos() <= body.End() {
+						if o := info.ObjectOf(id); o != nil && declaredWithin(info, body, o) {
 							// a local alias: keep tracking the original only if the rhs is not the bare resource
 							toLocalIdent = true
 						}
